@@ -90,6 +90,13 @@ class FlowGen:
         k = 0.0 if elt_only else r.random()
         if k < 0.68 or depth <= 0 and k < 0.8:
             row = self.tag_row(lid)
+            binrows = [x for x in self.rows(lid, 'tags') if x[3] & 1]
+            if binrows and r.random() < 0.12:
+                # binary-flagged element: its text is an opaque in WBXML and base64 in XML (empty text: error 18)
+                row = r.choice(binrows)
+                self.pages_hit.add((lid, 't', row[1]))
+                txt = r.choice([b'', b'\x00\x01\xfe', b'abc', b' '])
+                return f'Et.{row[1]}.{row[2]}.{row[0]}(T{hx(txt)}.)'
             kids = ''
             if depth > 0 and r.random() < 0.6:
                 kids = ''.join(self.node(lid, depth - 1) for _ in range(r.randint(1, 3)))
@@ -174,7 +181,7 @@ class FlowGen:
                     ops.append('D')
                 else:
                     ops.append('G')
-            while stack and r.random() < 0.7 and len(ops) < maxops + 4:
+            while stack and r.random() < 0.9 and len(ops) < maxops + 4:
                 ops.append('F1' + stack.pop())
         return f'FLOW {lid} {"X" if xml else "W"} {self.opts(xml)} ' + ' '.join(ops)
 
@@ -404,46 +411,56 @@ def run(res, args):
         res.coverage['code_pages_hit'] = {str(l): sorted({p for (ll, k, p) in g.pages_hit if ll == l and k == 't'}) for l in sorted({x[0] for x in g.pages_hit})}
         res.coverage['attr_pages_hit'] = {str(l): sorted({p for (ll, k, p) in g.pages_hit if ll == l and k == 'a'}) for l in sorted({x[0] for x in g.pages_hit if x[1] == 'a'})}
 
-    impl, model, inc = both(lines)
-
-    # ---- evaluate
+    # ---- run and evaluate in batches (the responses of 450 000 histories do not fit comfortably in memory)
     oracle_bad, corr_bad = [], []
     fn_table, nonfunctional = {}, []
     stats = {'ops': {}, 'ret': {}, 'o2': {}, 'steps': 0, 'len_hist': {}}
-    for i, ln in enumerate(lines):
-        a, m = impl[i], model[i]
-        sp = split_resp(a)
-        head, ops = ops_of(ln)
-        stats['len_hist'][len(ops)] = stats['len_hist'].get(len(ops), 0) + 1
-        for o in ops:
-            stats['ops'][o[0]] = stats['ops'].get(o[0], 0) + 1
-        if sp:
-            stats['steps'] += len(sp[1])
-            for s in sp[1]:
-                r = s.split(':')[0]
-                stats['ret'][r] = stats['ret'].get(r, 0) + 1
-            t = dict(x.split('=', 1) for x in sp[3].split())
-            stats['o2'][t.get('O2', '?')] = stats['o2'].get(t.get('O2', '?'), 0) + 1
-        res.add_eval(ln, nontrivial=bool(sp) and any(s.startswith('0:') and len(s) > 4 for s in sp[1]))
-        okk, why = oracle_of(a)
-        if not okk:
-            oracle_bad.append((i, why))
-        c = compare(ln, a, m)
-        if c is not None:
-            corr_bad.append((i, c))
-        # the parameter must be a function of (configuration, model state, item) over the WHOLE run
-        msp = split_resp(m)
-        if sp and msp and head[2] == 'W':
-            states = msp[3].split()
-            for k, o in enumerate(ops):
-                if o[0] in 'NMSF' and k < len(states) and k < len(sp[2]):
-                    key = (head[1], head[3], states[k], o)
-                    val = canon_step(sp[2][k])
-                    if val.startswith('E'):
-                        val = 'E'
-                    old = fn_table.setdefault(key, val)
-                    if old != val:
-                        nonfunctional.append((i, key, old, val))
+    inc = []
+    pick = set(rng.sample(range(len(lines)), min(5, len(lines))))
+    BATCH = 20000
+    for base in range(0, len(lines), BATCH):
+        part = lines[base:base + BATCH]
+        impl, model, inc_part = both(part)
+        inc += [(base + idx, rc, err) for idx, rc, err in inc_part]
+        for j, ln in enumerate(part):
+            i = base + j
+            a, m = impl[j], model[j]
+            sp = split_resp(a)
+            head, ops = ops_of(ln)
+            stats['len_hist'][len(ops)] = stats['len_hist'].get(len(ops), 0) + 1
+            for o in ops:
+                stats['ops'][o[0]] = stats['ops'].get(o[0], 0) + 1
+            if sp:
+                stats['steps'] += len(sp[1])
+                for st in sp[1]:
+                    r = st.split(':')[0]
+                    stats['ret'][r] = stats['ret'].get(r, 0) + 1
+                t = dict(x.split('=', 1) for x in sp[3].split())
+                stats['o2'][t.get('O2', '?')] = stats['o2'].get(t.get('O2', '?'), 0) + 1
+            res.add_eval(hash(ln), nontrivial=bool(sp) and any(st.startswith('0:') and len(st) > 4 for st in sp[1]))
+            okk, why = oracle_of(a)
+            if not okk and len(oracle_bad) < 2000:
+                oracle_bad.append((i, why))
+            c = compare(ln, a, m)
+            if c is not None and len(corr_bad) < 2000:
+                corr_bad.append((i, c))
+            if i in pick:
+                res.samples.append({'request': ln[:300], 'impl': (a or '')[:300], 'model': (m or '')[:300]})
+            # the parameter must be a function of (configuration, model state, item) over the WHOLE run
+            msp = split_resp(m)
+            if sp and msp and head[2] == 'W':
+                states = msp[3].split()
+                for k, o in enumerate(ops):
+                    if o[0] in 'NMSF' and k < len(states) and k < len(sp[2]):
+                        key = hash((head[1], head[3], states[k], o))
+                        val = canon_step(sp[2][k])
+                        if val.startswith('E'):
+                            val = 'E'
+                        val = hash(val)
+                        old = fn_table.setdefault(key, val)
+                        if old != val and len(nonfunctional) < 100:
+                            nonfunctional.append((i, (head[1], head[3], states[k], o), sp[2][k]))
+        del impl, model
     res.coverage['steps_compared'] = stats['steps']
     res.coverage['ops_hit'] = stats['ops']
     res.coverage['return_codes_hit'] = stats['ret']
@@ -454,9 +471,6 @@ def run(res, args):
     res.coverage['rule'] = ('one line = one whole history on one encoder; get_output compared after EVERY operation with the model, '
                             'with a fresh encoder fed the surviving operations only (O1) and, at the end, with the non-flow batch API on the '
                             'document the surviving operations denote (O2); non-trivial = some step produced bytes; distinct = distinct request line')
-    pick = rng.sample(range(len(lines)), min(5, len(lines)))
-    res.samples = [{'request': lines[i][:300], 'impl': (impl[i] or '')[:300], 'model': (model[i] or '')[:300]} for i in pick]
-
     # ---- sanitizer incidents
     for idx, rc, err in inc:
         if idx >= len(lines):
@@ -475,14 +489,20 @@ def run(res, args):
     def oracle_fails(l):
         r1, rc1, _ = corr.isolate(h, l, env=env)
         return not oracle_of(r1)[0]
-    seen = set()
+    seen, shapes = set(), set()
     for i, why in oracle_bad:
         if len(seen) >= 4:
             break
+        shape0 = (lines[i].split(' ')[2], ' '.join(sorted(x.split('=')[0] for x in why.split())))
+        if (shape0, 'pre') in shapes and len(shapes) > 8:
+            continue
         small = shrink(lines[i], oracle_fails)
-        if small in seen:
+        shape = (small.split(' ')[2], ''.join(o[0] for o in ops_of(small)[1]))
+        shapes.add((shape0, 'pre'))
+        if small in seen or shape in shapes:
             continue
         seen.add(small)
+        shapes.add(shape)
         r1, _, _ = corr.isolate(h, small, env=env)
         m1, _, _ = corr.isolate(drv, driver_line(small, r1))
         res.violation({'kind': 'flow-oracle', 'request': small, 'impl': r1, 'model': m1, 'oracle': oracle_of(r1)[1],
@@ -491,6 +511,9 @@ def run(res, args):
                                   '(O1: fresh encoder fed the surviving operations only; O2: non-flow batch API)'},
                       f'oracle-{len(seen)}')
     res.coverage['oracle_failures'] = len(oracle_bad)
+    res.assumptions += ['string table disabled (wbxml_encoder_set_flow_mode does it)',
+                        'nodes are handed over one by one: no parent, no next sibling (parse_node would follow it)',
+                        'no allocation failure (C16)', 'raw element start/end are called with element nodes']
 
     # ---- correspondence / hypothesis failures without an oracle failure
     if corr_bad and not res.violations:
@@ -507,8 +530,8 @@ def run(res, args):
                        'explain': 'the flow API no longer behaves like Model/Flow.lean on this history; the oracle found no history on which the property fails'},
                       'flow-correspondence', no_input=True)
     if nonfunctional and not res.violations:
-        i, key, old, val = nonfunctional[0]
-        res.violation({'kind': 'hypothesis', 'request': lines[i], 'key': list(key), 'values': [old, val],
+        i, key, val = nonfunctional[0]
+        res.violation({'kind': 'hypothesis', 'request': lines[i], 'key': list(key), 'second_value': val,
                        'explain': 'the encoding of one item is not a function of (tag page, attribute page, current tag) and the item: '
                                   'the hypothesis of the C17 theorems does not hold for the implementation'},
                       'item-not-functional', no_input=True)
